@@ -21,9 +21,9 @@ def _payload_slice3d(plot, l, lo, hi):
     cx, cy = [d for d in range(nd) if d != cn]
     K = 1000.0 + 37.0 * (idx[cx] >> l) + 0.5 * (idx[cy] >> l)
     T = plotgen.coded_block(l, lo, hi, 1)[..., 0]
-    R = plotgen._payload_random(plot, l, lo, hi)[..., 0]
-    cols = dict(A=A, K=K, T=T, R=R)
-    return np.stack([cols[f] for f in plot.fields], axis=-1)
+    R = plotgen._payload_random(plot, l, lo, hi)        # one random column per field position
+    cols = dict(A=A, K=K, T=T)
+    return np.stack([cols[f] if f in cols else R[..., i] for i, f in enumerate(plot.fields)], axis=-1)
 
 
 plotgen.PAYLOADS["slice3d"] = _payload_slice3d
@@ -185,3 +185,58 @@ def reference_values(plot, cn, L, ref, fi):
             cur[m] = v[m]
             out[sl] = cur
     return out
+
+
+def k_pattern(l, lo2, hi2):
+    """K on the in-plane footprint lo2..hi2 (level-l indices along cx, cy)"""
+    i, j = np.meshgrid(np.arange(lo2[0], hi2[0] + 1), np.arange(lo2[1], hi2[1] + 1), indexing="ij")
+    return 1000.0 + 37.0 * (i >> l) + 0.5 * (j >> l)
+
+
+def level_samples(plot, cn, l, k, fi):
+    """Stored level-l samples of field fi at normal cell index k over the level-l in-plane grid (NaN = no box)."""
+    cx, cy = [d for d in range(3) if d != cn]
+    gs = plot.grid_size(l)
+    out = np.full((gs[cx], gs[cy]), np.nan)
+    if k < 0 or k >= gs[cn]:
+        return out
+    for b, (blo, bhi) in enumerate(plot.levels[l]["boxes"]):
+        if blo[cn] <= k <= bhi[cn]:
+            a = np.transpose(plot.box_data(l, b)[..., fi], [cx, cy, cn])
+            out[blo[cx]:bhi[cx] + 1, blo[cy]:bhi[cy] + 1] = a[:, :, k - blo[cn]]
+    return out
+
+
+def level_bracket(plot, cn, p, l):
+    """(k0, k1, w1) of the level-l cell centres bracketing p (k0 == k1 when p is on a centre)."""
+    dx = plot.dx[l][cn]
+    kk = (p - plot.geo_lo[cn]) / dx - 0.5
+    if abs(kk - round(kk)) <= 1e-9:
+        return int(round(kk)), int(round(kk)), 0.0
+    k = int(np.floor(kk))
+    return k, k + 1, kk - k
+
+
+@st.composite
+def big_slice_specs(draw):
+    """3D inputs whose plotfile-format slice exceeds the 1 MB file-splitting threshold at level 0."""
+    cn = draw(st.integers(0, 2))
+    nb0 = [8, 8, 8]
+    nb0[cn] = 1
+    nf = draw(st.sampled_from([33, 40, 62, 65, 95]))
+    nlev = draw(st.integers(1, 2))
+    rects = []
+    if nlev == 2:
+        lo = [draw(st.integers(0, 12)), draw(st.integers(0, 12)), draw(st.integers(0, 12))]
+        lo[cn] = draw(st.integers(0, 1))
+        sz = [draw(st.integers(1, 3)) for _ in range(3)]
+        sz[cn] = 1
+        rects = [[[lo, sz]]]
+    mesh = dict(ndims=3, bf=8, m=draw(st.integers(1, 3)), nb0=nb0, nlev=nlev, rects=rects, no_unit=False,
+                chop_seed=draw(st.one_of(st.just(0), st.integers(1, 2 ** 16))), order_seed=draw(st.integers(0, 99)),
+                layout=draw(plotgen.layouts()))
+    geom = draw(plotgen.geom_specs(3))
+    fields = list(FIELDS) + [f"R{i}" for i in range(nf - len(FIELDS))]
+    return dict(mesh=mesh, geom=geom, fields=fields, time=draw(st.sampled_from(plotgen.TIMES)), step=7,
+                payload=dict(kind="slice3d", cn=cn, seed=draw(st.integers(0, 999)), alpha=3.0, beta=2.0),
+                style="amrex", extra_factors=0)
